@@ -77,8 +77,15 @@ type MdnsManager struct {
 
 	providerSelection MdnsProviderSelection
 
+	// the entries are reported asynchronously, a report must not be overtaken by an older one
+	// each report gets a sequence number, the numbers of the most recent created and reported reports are kept
+	reportSequence, reportedSequence uint64
+	// same for the reports that contain changed entries
+	newEntriesSequence, reportedNewEntriesSequence uint64
+
 	mux,
-	muxAnnounced sync.Mutex
+	muxAnnounced,
+	muxReport sync.Mutex
 }
 
 func shortenString(s string, maxLen int) string {
@@ -558,8 +565,8 @@ func (m *MdnsManager) processMdnsEntry(elements map[string]string, name, host st
 		return
 	}
 
-	entries := m.copyMdnsEntries()
-	go m.report.ReportMdnsEntries(entries, true)
+	entries, sequence := m.copyMdnsEntriesForReport(true)
+	go m.reportMdnsEntries(entries, true, sequence)
 }
 
 func (m *MdnsManager) RequestMdnsEntries() {
@@ -567,6 +574,43 @@ func (m *MdnsManager) RequestMdnsEntries() {
 		return
 	}
 
+	entries, sequence := m.copyMdnsEntriesForReport(false)
+	go m.reportMdnsEntries(entries, false, sequence)
+}
+
+// copy the entries for a report and provide the sequence number of that report
+func (m *MdnsManager) copyMdnsEntriesForReport(newEntries bool) (map[string]*api.MdnsEntry, uint64) {
 	entries := m.copyMdnsEntries()
-	go m.report.ReportMdnsEntries(entries, false)
+
+	m.mux.Lock()
+	defer m.mux.Unlock()
+
+	m.reportSequence++
+	if newEntries {
+		m.newEntriesSequence = m.reportSequence
+	}
+
+	return entries, m.reportSequence
+}
+
+// report the entries unless a more recent report was already delivered
+// every report contains all entries, so a more recent one supersedes the older ones
+func (m *MdnsManager) reportMdnsEntries(entries map[string]*api.MdnsEntry, newEntries bool, sequence uint64) {
+	m.muxReport.Lock()
+	defer m.muxReport.Unlock()
+
+	if sequence < m.reportedSequence {
+		return
+	}
+	m.reportedSequence = sequence
+
+	// this report also covers changed entries of an older report that was not delivered yet
+	m.mux.Lock()
+	if m.newEntriesSequence <= sequence && m.newEntriesSequence > m.reportedNewEntriesSequence {
+		newEntries = true
+		m.reportedNewEntriesSequence = m.newEntriesSequence
+	}
+	m.mux.Unlock()
+
+	m.report.ReportMdnsEntries(entries, newEntries)
 }
